@@ -489,6 +489,11 @@ func (d *Def) endlessDefinition(
 
 	d.setDefineMethodT(p, ctx, methodT, defineRow)
 
+	// an endless definition gets its signature hint like any other definition
+	if ctx.IsCheckRound() {
+		d.setDefineInfos(p, ctx, methodT, defineRow, p.ErrorRow)
+	}
+
 	return nil
 }
 
